@@ -1377,7 +1377,7 @@ pub fn run(cfg: &Cfg, rep: &mut Report) {
         rep.require("routing:negation-changes-route", 1);
     }
     for site in ["solve.chol", "solve.lu", "solve_sys.chol", "solve_sys.lu"] {
-        rep.require(site, 1);
+        rep.expect_site(site, 1);
     }
     rep.require("routing:forced-lu-variant", 1);
     if !cfg.miri() {
